@@ -2146,7 +2146,14 @@ class FnTranslator:
         if k == 'CXXScalarValueInitExpr' or k == 'ImplicitValueInitExpr':
             return ('const', t, 0)
         if k == 'CXXDefaultArgExpr':
-            return self.expr(self.inner(n)[0]) if self.inner(n) else self.err(n, 'default arg without expr')
+            if self.inner(n):
+                return self.expr(self.inner(n)[0])
+            if is_scalar(t):
+                nm = self.tmp(t)
+                self.pre.append(('decl', nm, t, ('unspecified', t)))
+                self.rule('default argument whose value is not visible in the AST: left unspecified (any value)')
+                return ('var', nm, t)
+            self.err(n, 'default arg without expr')
         if k == 'CXXThisExpr':
             return ('var', 'self', ('ptr', self.self_type))
         self.err(n, 'unsupported expression')
@@ -2702,6 +2709,20 @@ class FnTranslator:
                     r.is_array = getattr(b, 'is_array', False)
                     return r
             if op in CMP_OPS and len(args) == 2:
+                ea = self.is_eigen_node(args[0]) or self.T(args[0])[0] == 'eig'
+                eb = self.is_eigen_node(args[1]) or self.T(args[1])[0] == 'eig'
+                if ea and not eb:
+                    a = self.eig(args[0]); sc = self.expr(args[1])
+                    self.rule('eigen: array compared with a scalar (broadcast)')
+                    r = EigVal(('bool',), a.rows, a.cols, lambda i, j: ('bin', op, a.get(i, j), sc, ('bool',)))
+                    r.is_array = True
+                    return r
+                if eb and not ea:
+                    b = self.eig(args[1]); sc = self.expr(args[0])
+                    self.rule('eigen: array compared with a scalar (broadcast)')
+                    r = EigVal(('bool',), b.rows, b.cols, lambda i, j: ('bin', op, sc, b.get(i, j), ('bool',)))
+                    r.is_array = True
+                    return r
                 a, b = self.eig(args[0]), self.eig(args[1])
                 r = EigVal(('bool',), a.rows, a.cols, lambda i, j: ('bin', op, a.get(i, j), b.get(i, j), ('bool',)))
                 r.is_array = True
